@@ -180,7 +180,8 @@ def run(ctx, only_type_id=False):
     Srd = Sym(prog, r)
     seeks = [c for c in symcalls(prog, r, Srd) if c[1].endswith("Seek::seek")]
     adds = [c[2][1] for c in seeks]
-    ctx.check(len(seeks) == 3 and sum(1 for a in adds if "Add!" in a) == 2, R, "read() seeks to section_offset (+ offset)", "", "read() seeks: %s" % [a[:80] for a in adds], r.loc(), fn=r.name)
+    real_adds = [a for a in adds if "Add!" in a and not re.search(r"Add! \(?c:0( as u64\))?\)", a)]
+    ctx.check(len(seeks) == 3 and len(real_adds) == 2, R, "read() seeks to section_offset (+ offset)", "", "read() seeks: %s" % [a[:80] for a in adds], r.loc(), fn=r.name)
 
 
 SUMMARY_IDS = {"title": 2, "subject": 3, "author": 4, "comments": 6, "uuid": 9, "creation_time": 12, "word_count": 15, "creating_application": 18}
@@ -264,7 +265,11 @@ def cp_thread(ctx):
     w = prog.fn(PS + "PropertySet::write")
     S = Sym(prog, w)
     pw = [args for b, n, args, t in symcalls(prog, w, S) if n.endswith("PropertyValue::write")]
-    ctx.check(len(pw) == 1 and pw[0][2] == "*p1.codepage", R, "write uses self.codepage", str([a[2] for a in pw]), "PropertySet::write encodes values with %s" % [a[2] for a in pw], w.loc(), fn=w.name)
+    if not pw:
+        # the values are written from a closure (`values().try_for_each(|v| v.write(&mut writer, self.codepage))`)
+        from ..lib import unit_calls as _uc
+        pw = [args for b, n, args, t, L in _uc(prog, w, S) if n.endswith("PropertyValue::write")]
+    ctx.check(len(pw) == 1 and pw[0][2].lstrip("&*") == "p1.codepage", R, "write uses self.codepage", str([a[2] for a in pw]), "PropertySet::write encodes values with %s" % [a[2] for a in pw], w.loc(), fn=w.name)
     r = prog.fn(PS + "PropertySet::read")
     S = Sym(prog, r)
     pr = [args for b, n, args, t in symcalls(prog, r, S) if n.endswith("PropertyValue::read")]
